@@ -16,7 +16,7 @@ R6 size refusal       : Message::new returns Ok only past both size guards; from
                         accepted payload is init + max_cont·cont − 1 ≤ 7609 and nothing accepted needs more than 128 continuations.
 Not decided: that fragmentation∘reassembly is the identity for every payload length and content.
 """
-from . import core, flow, names, summary, intervals
+from . import core, flow, names, normal, summary, intervals
 from .framework import where, short, api_name
 from .common import find_aggs
 from .c02 import has, is_call, find, sub, closure_ret
@@ -31,6 +31,7 @@ def run(chk):
     chk.configs = ["all-features"]
     chk.explanation = __doc__
     S = summary.Summaries(p)
+    N = normal.Normalizer(p, S)
     hp = p.method(H + "ChannelHandler", "handle_packet")
     ext = p.method(H + "Message", "extend")
     new = p.method(H + "Message", "new")
@@ -86,19 +87,26 @@ def run(chk):
     muts = [(bb, t, m) for bb, t, m in tbl if m in ("insert", "remove", "entry")]
     if chk.require("R2 continuation without init", "R2|get_mut", len(gm) == 1, where(hp), "expected one get_mut on the channel table"):
         gb = gm[0][0]
-        tr = [t for t in flow.try_sites(hp) if t["operand"] and t["operand"][0] == gm[0][1]["dest"]["l"]]
-        ok = len(tr) == 1
+        Th = flow.Terms(p, hp)
+        is_lookup = lambda x: isinstance(x, tuple) and len(x) == 4 and x[0] == "call" and x[1].endswith("::get_mut")
+        found_edges, missing_edges = flow.success_edges(p, hp, is_lookup, Th)
+        ok = bool(found_edges) and bool(missing_edges)
+        dbg = ""
         if ok:
-            after_none = hp.reachable(tr[0]["break_bb"], follow_yield_drop=False)
+            after_none = set()
+            for sb, sc in missing_edges:
+                after_none |= hp.reachable(sc, follow_yield_drop=False)
             mut_after = [m for bb, t, m in muts if bb in after_none]
             ext_after = [bb for bb, t in hp.calls() if names.call_is(t, "Message::extend") and bb in after_none]
-            nones = [o for o in outs if any(t[0] == "discr" and t[1][0] == "try" and isinstance(t[1][1], tuple) and len(t[1][1]) == 4 and t[1][1][0] == "call" and t[1][1][1].endswith("::get_mut") and l == ("in", "1") for t, l, f, w in o.conds)]
-            ok = not mut_after and not ext_after and len(nones) == 1 and nones[0].variant[:1] in (("Err",), ("None",))
-            dbg = (mut_after, ext_after, len(nones), [n.vstr() for n in nones])
+            # every outcome on the "no entry" side is None
+            exclusive = [s for s in flow.outcome_sites(hp) if s["path"] == () and s["bb"] in after_none and flow.cut_by_edges(hp, 0, [s["bb"]], missing_edges)]
+            only_none = bool(exclusive) and all(s["kind"] in ("None", "residual") for s in exclusive)
+            ok = not mut_after and not ext_after and only_none
+            dbg = (mut_after, ext_after, only_none)
             # in the continuation arm the only mutations are extend (of this entry) and remove (of this key), both after the lookup succeeded
-            cont_muts = [bb for bb, t, m in muts if m != "insert"]
-            ok = ok and all(flow.cut_by_edges(hp, 0, [bb], [(tr[0]["switch_bb"], tr[0]["continue_bb"])]) for bb in cont_muts)
-        chk.ob("R2 continuation without init", "R2|none-before-mutation", ok, where(hp, gb), "lookup None → return None; remove/extend only past the successful lookup: %s %s" % (ok, dbg if tr else ""))
+            cont_muts = [bb for bb, t, m in muts if m != "insert"] + [bb for bb, t in hp.calls() if names.call_is(t, "Message::extend")]
+            ok = ok and all(flow.cut_by_edges(hp, 0, [bb], found_edges) for bb in cont_muts)
+        chk.ob("R2 continuation without init", "R2|none-before-mutation", ok, where(hp, gb), "lookup None → return None; remove/extend only past the successful lookup: %s %s" % (ok, dbg))
 
     # ---------------- R3
     consts = {"MAX_PACKET_SIZE": 64, "InitHeader::HEADER_SIZE": 7, "InitHeader::MAX_PAYLOAD_SIZE": 57, "ContHeader::HEADER_SIZE": 5, "ContHeader::MAX_PAYLOAD_SIZE": 59, "PACKET_DISCRIPTOR_BIT": 0x80}
@@ -207,16 +215,32 @@ def run(chk):
 
     # ---------------- R4
     Tt = flow.Terms(p, tpk)
+    # the sequence number of a continuation header is the enumeration index of the chunk it carries — whether the chunks are
+    # mapped through a closure or walked by a `for` loop
     seq_ok = False
+    src = None
     for nb in p.nested(tpk.path):
         for bb, i, rv in find_aggs(nb, "ContHeader"):
             Tn = flow.Terms(p, nb)
-            sv = flow.simplify_term(Tn.operand(rv["ops"][rv["fields"].index("seq")], bb, i))
-            # closure over (seq, payload) from enumerate(): seq = tuple.0 of the closure argument
-            seq_ok = has(sv, lambda y: y == ("field", ("param", 2), "0")) and has(sv, lambda y: is_call(y, "TryInto::try_into"))
-    enum = bool(names.calls_to(tpk, "Iterator::enumerate")) and bool(names.calls_to(tpk, "slice::chunks"))
+            sv = N.norm(Tn.operand(rv["ops"][rv["fields"].index("seq")], bb, i))
+            x = sv
+            while isinstance(x, tuple) and x and (x[0] == "payload" or (len(x) == 4 and x[0] == "call" and (names.is_(x[1], "TryInto::try_into") or names.is_(x[1], "TryFrom::try_from") or names.is_(x[1], "Option::unwrap") or names.is_(x[1], "Result::unwrap")))):
+                x = x[1] if x[0] == "payload" else x[2][0]
+            if not (isinstance(x, tuple) and len(x) == 3 and x[0] == "field" and x[2] == "0"):
+                continue
+            elem = x[1]
+            if nb is not tpk and elem == ("param", 2):
+                # closure argument: the closure must be mapped over the enumerated chunks
+                for mb, mt in names.calls_to(tpk, "Iterator::map"):
+                    clo = flow.simplify_term(Tt.operand(mt["args"][1], mb, "t"))
+                    if clo[0] == "closure" and clo[1] == nb.path:
+                        src = N.norm(Tt.operand(mt["args"][0], mb, "t"))
+            elif flow.payload_subject(elem) is not None and is_call(flow.payload_subject(elem), "Iterator::next"):
+                src = flow.iterator_source(flow.payload_subject(elem)[2][0])
+            seq_ok = src is not None and is_call(src, "Iterator::enumerate") and is_call(src[2][0], "slice::chunks")
+    enum = seq_ok
     skip = [core.callee_of(t) for bb, t in tpk.calls() if names.call_is(t, "Iterator::skip", "Iterator::rev", "Iterator::step_by", "Iterator::zip")]
-    chk.ob("R4 sequence discipline", "R4|sender-numbers-from-enumerate", seq_ok and enum and not skip, where(tpk), "ContHeader.seq = enumerate() index of chunks(): %s" % (seq_ok and enum))
+    chk.ob("R4 sequence discipline", "R4|sender-numbers-from-enumerate", seq_ok and not skip, where(tpk), "ContHeader.seq = enumeration index of %s: %s" % (flow.term_str(src)[:120] if src else "?", seq_ok))
     ck = names.calls_to(tpk, "slice::chunks")
     if ck:
         ivt = intervals.Intervals(p, tpk)
@@ -229,8 +253,8 @@ def run(chk):
     rows = S.local_outcomes(ext)
     acc = [o for o in rows if o.variant[:1] == ("Ok",)]
     rej = [o for o in rows if o.variant[:1] == ("Err",)]
-    eqc = lambda t: t[0] == "binop" and t[1] == "Eq" and set(t[2:4]) == {("field", ("param", 2), "seq"), ("field", ("param", 1), "sequence")}
-    ok = len(acc) == 1 and any(eqc(t) and flow.lab_true(l) for t, l, f, w in acc[0].conds)
+    want = frozenset({("field", ("param", 2), "seq"), ("field", ("param", 1), "sequence")})
+    ok = len(acc) == 1 and any(flow.eq_test(t, l) == (want, True) for t, l, f, w in acc[0].conds)
     if ok:
         w = find(acc[0].value, lambda y: isinstance(y, tuple) and len(y) == 3 and y[0] == "with")
         ups = dict((k, v) for k, v in w[2]) if w else {}
